@@ -356,4 +356,135 @@ def c09(report, rng, tier, findings):
         "single thread"]
 
 
-HANDLERS = {'C09': c09, 'C03': c03, 'C06': c06, 'C15': c15, 'C18': c18, 'C19': c19}
+# ------------------------------------------------------------------------------------------- C16 / C17
+
+def gen_nested_case(rng, cid, scalars=True):
+    """Parents with inner collections of different lengths (empty, overlapping, scalar, falsy elements)."""
+    n = rng.randint(1, 5)
+    objs = []
+    pool = [('i', k) for k in range(0, 5)]
+    for i in range(n):
+        r = rng.random()
+        if r < 0.15:
+            items = ('l',)
+        elif r < 0.27 and scalars:
+            items = rng.choice(pool)               # a non-iterable value: counts as a single element
+        else:
+            k = rng.randint(1, 3)
+            if rng.random() < 0.8:
+                items = ('l',) + tuple(rng.sample(pool, k))     # no repeated element inside one collection
+            else:
+                items = ('l',) + tuple(rng.choice(pool) for _ in range(k))
+        objs.append((i, 'A', {'a': ('i', rng.randint(0, 3)), 'b': ('i', rng.randint(0, 2)), 's': ('s', 'ab'),
+                              'flag': ('b', rng.randint(0, 1)), 'items': items,
+                              't': ('t', ('i', 0), ('i', 1)), 'ref': ('o', rng.randrange(n))}))
+    return objs
+
+
+def c16(report, rng, tier, findings):
+    n = n_cases(tier, 300, 4000)
+    cases = []
+    for i in range(n):
+        objs = gen_nested_case(rng, i)
+        raw = [('o', j) for j in range(len(objs))]
+        if rng.random() < 0.3:
+            rng.shuffle(raw)
+        P, E = ('var', 0), ('flat', 100, ('attr', 'items', ('var', 0)))
+        sel = rng.choice(([P, E], [P, E], [E], [E, P]))
+        conds = []
+        r = rng.random()
+        pc = ('cmp', rng.choice(('gt', 'le', 'eq', 'ne')), ('attr', 'a', P), ('lit', ('i', rng.randint(0, 3))))
+        ec = ('cmp', rng.choice(('gt', 'le', 'eq', 'ne', 'lt', 'ge')), E, ('lit', ('i', rng.randint(0, 4))))
+        if r < 0.25:
+            conds = []
+        elif r < 0.45:
+            conds = [pc]
+        elif r < 0.7:
+            conds = [ec]
+        elif r < 0.85:
+            conds = [('and', pc, ec)]
+        else:
+            conds = [('or', ec, ('cmp', 'eq', E, ('lit', ('i', rng.randint(0, 4)))))]
+        cases.append({'id': f'c{i}', 'classes': [('A', '-')], 'objs': objs, 'vars': [(0, 'A', raw)], 'quant': 'an',
+                      'sel': sel, 'cond': conds or None, 'entity': len(sel) == 1})
+    report.rule = ("1-5 parents whose inner collections are empty, overlapping, scalar (non-iterable) or carry repeated / falsy "
+                   "elements; flatten(p.items) selected alone, with the parent (either order); no condition, a condition on the "
+                   "parent, on the element, both, or a disjunction on the element; rows compared with the UNNEST oracle as a multiset "
+                   "when parent and element are selected and no collection repeats an element, as a set otherwise; non-trivial = at "
+                   "least two parents with non-empty collections")
+
+    def nontriv(case, res):
+        return sum(1 for _, _, a in case['objs'] if a['items'] != ('l',)) >= 2
+
+    class J(QueryJudge):
+        pass
+    judge = QueryJudge(report, findings, 'C16', nontrivial=nontriv)
+    # canonical form: multiset only when (parent, element) are both selected and no inner collection repeats an element
+    import harness.qcheck as qc
+    orig = qc.all_selected
+
+    def strict(case):
+        if not orig(case):
+            return False
+        if not any(t[0] == 'flat' for t in case['sel']):
+            return False
+        for _, _, a in case['objs']:
+            it = a['items']
+            if it[0] == 'l' and len(set(it[1:])) != len(it[1:]):
+                return False
+        return True
+    qc.all_selected = strict
+    import harness.props_q as pq
+    pq.all_selected = strict
+    try:
+        run_query_cases(report, cases, {'caching': (False, True), 'evals': 2}, judge)
+    finally:
+        qc.all_selected = orig
+        pq.all_selected = orig
+    return ['EqlModel.Props.C16'], [
+        "theorems: the shapes [p, e] / [e] without condition, with a condition on the parent, with a comparison on the element; "
+        "conjunctions/disjunctions and [e, p] order are covered by correspondence",
+        "multiset equality is claimed for inner collections without a repeated element inside one collection"]
+
+
+def c17(report, rng, tier, findings):
+    n = n_cases(tier, 300, 4000)
+    cases = []
+    for i in range(n):
+        objs = gen_nested_case(rng, i)
+        npar = len(objs)
+        # outer objects whose attribute a is tested for membership
+        extra = rng.randint(1, 4)
+        for j in range(extra):
+            objs.append((npar + j, 'B', {'a': ('i', rng.randint(0, 5)), 'b': ('i', 0), 's': ('s', 'ab'), 'flag': ('b', 0),
+                                         'items': ('l',), 't': ('t', ('i', 0), ('i', 1)), 'ref': ('o', 0)}))
+        praw = [('o', j) for j in range(npar)]
+        oraw = [('o', npar + j) for j in range(extra)]
+        C = ('concat', 200, ('attr', 'items', ('var', 0)))
+        kind = rng.choice(('value', 'member', 'notmember', 'contains'))
+        if kind == 'value':
+            case = {'sel': [C], 'cond': None, 'entity': True, 'vars': [(0, 'A', praw)]}
+        else:
+            item = ('attr', 'a', ('var', 1))
+            cond = ('in', item, C) if kind != 'contains' else ('contains', C, item)
+            if kind == 'notmember':
+                cond = ('not', cond)
+            case = {'sel': [('var', 1)], 'cond': [cond], 'entity': True, 'vars': [(0, 'A', praw), (1, 'B', oraw)]}
+        case.update({'id': f'c{i}', 'classes': [('A', '-'), ('B', '-')], 'objs': objs, 'quant': 'an', 'kind': kind})
+        cases.append(case)
+    report.rule = ("1-5 parents (empty, overlapping, repeated, scalar inner collections); concatenate(p.items) evaluated alone (the "
+                   "single value compared as a SEQUENCE) and as the container of in_/contains/not_(in_) tests of another variable's "
+                   "attribute, 1-4 outer objects, members and non-members; compared with the oracle; non-trivial = at least two "
+                   "parents with elements")
+
+    def nontriv(case, res):
+        return sum(1 for _, c, a in case['objs'] if c == 'A' and a['items'] != ('l',)) >= 2
+    judge = QueryJudge(report, findings, 'C17', nontrivial=nontriv, ordered=True)
+    for c in cases:
+        report.count('kind_' + c['kind'])
+    run_query_cases(report, cases, {'caching': (False, True), 'evals': 1, 'ordered': True}, judge)
+    return ['EqlModel.Props.C17'], ["the parent domain is non-empty in the generated cases (with no parent the single row has no value)",
+                                    "membership is tested on an attribute of the outer variable (values), not on the objects themselves"]
+
+
+HANDLERS = {'C16': c16, 'C17': c17, 'C09': c09, 'C03': c03, 'C06': c06, 'C15': c15, 'C18': c18, 'C19': c19}
